@@ -25,11 +25,15 @@ import (
 )
 
 const (
-	magicQuery  = 0xb48bf97a // adnl.message.query query_id:int256 query:bytes = adnl.Message
-	magicAnswer = 0x0fac8416 // adnl.message.answer query_id:int256 answer:bytes = adnl.Message
-	magicPing   = 0x4d082b9a // tcp.ping random_id:long = tcp.Pong
-	magicPong   = 0xdc69fb03 // tcp.pong random_id:long = tcp.Pong
-	magicOther  = 0x5a5a1234 // not a constructor the client knows
+	magicQuery        = 0xb48bf97a // adnl.message.query query_id:int256 query:bytes = adnl.Message
+	magicAnswer       = 0x0fac8416 // adnl.message.answer query_id:int256 answer:bytes = adnl.Message
+	magicPing         = 0x4d082b9a // tcp.ping random_id:long = tcp.Pong
+	magicPong         = 0xdc69fb03 // tcp.pong random_id:long = tcp.Pong
+	magicOther        = 0x5a5a1234 // not a constructor the client knows
+	magicAuth         = 0x445bab12 // tcp.authentificate nonce:bytes = tcp.Message
+	magicAuthNonce    = 0xe35d4ab6 // tcp.authentificationNonce nonce:bytes = tcp.Message
+	magicAuthComplete = 0xf7ad9ea6 // tcp.authentificationComplete key:PublicKey signature:bytes = tcp.Message
+	magicPubKey       = 0x4813b4c6 // pub.ed25519 key:int256 = PublicKey
 )
 
 // raw is one recorded hook or server event; the slot index is its global sequence number.
@@ -133,7 +137,7 @@ func (r *recorder) hook(localAddr func(any) string) func(ev string, obj any, a, 
 			}
 		default:
 			s.ptr = ptrOf(x)
-			if ev == "conn.up" || ev == "rc.begin" {
+			if ev == "conn.up" || ev == "conn.up.auth" || ev == "rc.begin" {
 				s.addr = localAddr(x)
 			}
 		}
